@@ -28,7 +28,10 @@ PNG_COL = [({}, '#000', '#fff'), (dict(dark='darkblue'), 'darkblue', '#fff'), (d
            (dict(dark='#00000080'), '#00000080', '#fff'), (dict(dark=(10, 20, 30), light=(200, 210, 220, 128)), (10, 20, 30), (200, 210, 220, 128)),
            (dict(dark='white', light='black'), 'white', 'black'), (dict(dark=None, light='black'), None, 'black'),
            (dict(dark='#0008', light='#fff8'), '#00000088', '#ffffff88'), (dict(dark=(0, 0, 0, 0.5)), (0, 0, 0, 0.5), '#fff'),
-           (dict(dark='black', light='white'), '#000', '#fff'), (dict(dark='#FFFFFF', light=None), '#fff', None)]
+           (dict(dark='black', light='white'), '#000', '#fff'), (dict(dark='#FFFFFF', light=None), '#fff', None),
+           # the writer picks the first CSS colours as stand-in for "transparent": the visible colour may be exactly one of them
+           (dict(dark='aliceblue', light=None), 'aliceblue', None), (dict(dark=None, light='#f0f8ff'), None, '#f0f8ff'),
+           (dict(dark='antiquewhite', light=None), 'antiquewhite', None), (dict(dark=(240, 248, 255, 128), light=None), (240, 248, 255, 128), None)]
 COLORS = {
     'png': PNG_COL,
     'pbm': [({}, '#000', '#fff'), (dict(plain=True), '#000', '#fff')],
